@@ -537,9 +537,16 @@ func genC13Cores(w *bufio.Writer, rng *hx.Rng, tier string) {
 	treeCfg := jt.GenCfg{MaxDepth: 3, MaxWidth: 5, Keys: keys, UniqueKeys: true, Strings: []string{"x", "", "v w"}}
 	for i := 0; i < nf; i++ {
 		var root *jt.Tree
-		if rng.Chance(1, 12) {
+		switch {
+		case rng.Chance(1, 12):
 			root = jt.GenValue(rng, treeCfg)
-		} else {
+		case rng.Chance(1, 6):
+			// wide root (insane-json keeps a key map for objects above its threshold)
+			root = jt.GenObj(rng, treeCfg)
+			for k := 0; k < 20; k++ {
+				root.Obj = append(root.Obj, jt.F(fmt.Sprintf("w%d", k), jt.Nu(fmt.Sprint(k))))
+			}
+		default:
 			root = jt.GenObj(rng, treeCfg)
 		}
 		switch rng.Intn(3) {
@@ -575,6 +582,9 @@ func genC13Cores(w *bufio.Writer, rng *hx.Rng, tier string) {
 	c13AllStrings([]string{"\\", "u", "x", "0", "d", "8"}, ulen, func(s string) {
 		fmt.Fprintf(w, "c13.utf8 1 %s\n", hx.Enc([]byte(s)))
 	})
+	for _, sq := range c13Pools["utf8esc"] {
+		fmt.Fprintf(w, "c13.utf8 1 %s\n", hx.Enc([]byte(sq)))
+	}
 	pieces := []string{"\\", "\\\\", "\\u", "\\U", "\\x", "u", "x", "0041", "d801", "dc01", "D83D", "DE00", "00e9", "zz", "41", "4", "f", "g", "110", "377", "400", "8", "0001F600", "0011FFFF", "FFFFFFFF", "0000d800", "+123", "я", "\xff", " ", "a"}
 	nu := 3000
 	if full {
